@@ -57,29 +57,56 @@ MASTER_PARTS = [(NS['style'], 'header'), (NS['style'], 'footer'), (NS['draw'], '
 
 
 # ------------------------------------------------------------------ recipes (pure data, JSON-able)
+def _refs(refs):
+    # (attribute, value) or (attribute, value, True): True = hand the style OBJECT to the library, not its name
+    return [[list(r[0]), r[1]] + ([True] if len(r) > 2 and r[2] else []) for r in refs]
+
+
 def el(q, refs=(), kids=(), text=None):
-    return {'q': list(q), 'refs': [[list(a), v] for a, v in refs], 'kids': list(kids), 'text': text}
+    return {'q': list(q), 'refs': _refs(refs), 'kids': list(kids), 'text': text}
 
 
 def style_recipe(kind, name, refs=(), kidrefs=()):
-    return {'kind': kind, 'name': name, 'refs': [[list(a), v] for a, v in refs],
-            'kidrefs': [[list(a), v] for a, v in kidrefs]}
+    return {'kind': kind, 'name': name, 'refs': _refs(refs), 'kidrefs': _refs(kidrefs)}
 
 
 def empty_recipe(doctype='text'):
     return {'doctype': doctype, 'common': [], 'auto': [], 'body': [], 'master': []}
 
 
+OBJECT_CONVERTERS = ('cnv_StyleNameRef',)      # converters that take a style object and store its style:name
+
+
 def realise(recipe):
-    """build the real document of a recipe (generic elements, grammar checks off, setAttrNS for every attribute)"""
+    """build the real document of a recipe (generic elements, grammar checks off, setAttrNS for every attribute);
+    references flagged so are given as style OBJECTS; `recipe['objects']` are embedded with addObject (recursively).
+    `doc.c10_problems` collects what went wrong while building: (signature, detail)"""
     from odf import opendocument
     from odf.element import Element
+    from odf.attrconverters import attrconverters
     mk = {'text': opendocument.OpenDocumentText, 'spreadsheet': opendocument.OpenDocumentSpreadsheet,
           'presentation': opendocument.OpenDocumentPresentation, 'drawing': opendocument.OpenDocumentDrawing}
     d = mk[recipe['doctype']]()
+    problems = []
+    registry = {}
 
-    def put(e, a, v):
+    def put(e, a, v, obj=False):
         a = (a[0], a[1])
+        if obj and v in registry:
+            conv = attrconverters.get((a, e.qname)) or attrconverters.get((a, None))
+            if conv is not None and conv.__name__ in OBJECT_CONVERTERS:
+                target = registry[v][0]
+                try:
+                    e.setAttrNS(a[0], a[1], target)
+                except Exception as ex:
+                    problems.append(('object-reference-refused:%s' % a[1], 'setAttrNS(%s, <%s style:name=%r>) raised %r' % (a[1], target.qname[1], v, ex)))
+                    e.attributes[a] = v
+                stored = e.attributes.get(a)
+                if not (isinstance(stored, str) and stored == v):
+                    # the reference given as an object must be stored as that object's style:name
+                    problems.append(('object-reference-not-stored:%s' % a[1],
+                                     '%s given the object <%s style:name=%r> is stored as %r' % (a[1], target.qname[1], v, u'%s' % (stored,))))
+                return
         try:
             e.setAttrNS(a[0], a[1], v)
         except Exception:
@@ -87,35 +114,47 @@ def realise(recipe):
         if e.attributes.get(a) != v:       # e.g. cnv_NCNames wants a list and spaces a string out (C15's subject)
             e.attributes[a] = v
 
+    def putrefs(e, refs):
+        for r in refs:
+            put(e, r[0], r[1], len(r) > 2 and r[2])
+
     def build(r):
         e = Element(qname=(r['q'][0], r['q'][1]), check_grammar=False)
-        for a, v in r['refs']:
-            put(e, a, v)
+        putrefs(e, r['refs'])
         if r.get('text'):
             e.addText(r['text'], check_grammar=False)
         for k in r['kids']:
             e.addElement(build(k), check_grammar=False)
         return e
 
-    def build_style(s):
+    def new_style(s):
         q, extra, kidq = KINDS[s['kind']]
         e = Element(qname=q, check_grammar=False)
         put(e, STYLE_NAME, s['name'])
         for a, v in sorted(extra.items()):
             put(e, a, v)
-        for a, v in s['refs']:
-            put(e, a, v)
-        if s['kidrefs']:
-            k = Element(qname=kidq or (NS['style'], 'text-properties'), check_grammar=False)
-            for a, v in s['kidrefs']:
-                put(k, a, v)
-            e.addElement(k, check_grammar=False)
         return e
 
-    for s in recipe['common']:
-        d.styles.addElement(build_style(s), check_grammar=False)
+    def finish_style(e, s):
+        q, extra, kidq = KINDS[s['kind']]
+        putrefs(e, s['refs'])
+        if s['kidrefs']:
+            k = Element(qname=kidq or (NS['style'], 'text-properties'), check_grammar=False)
+            putrefs(k, s['kidrefs'])
+            e.addElement(k, check_grammar=False)
+
+    # first every style element (so that references can be given as objects), then their references
+    made = []
     for s in recipe['auto']:
-        e = build_style(s)
+        e = new_style(s); made.append((e, s)); registry.setdefault(s['name'], []).append(e)
+    cmade = []
+    for s in recipe['common']:
+        e = new_style(s); cmade.append((e, s)); registry.setdefault(s['name'], []).append(e)
+    for e, s in cmade:
+        finish_style(e, s)
+        d.styles.addElement(e, check_grammar=False)
+    for e, s in made:
+        finish_style(e, s)
         if s.get('late_name'):
             # a second style:style under an existing name would be renamed to 'M'+name when it is added
             # (__register_stylename); give it its name once it is in the tree
@@ -129,7 +168,23 @@ def realise(recipe):
         main.addElement(build(r), check_grammar=False)
     for r in recipe['master']:
         d.masterstyles.addElement(build(r), check_grammar=False)
+    for sub in recipe.get('objects', []):
+        sd = realise(sub)
+        d.addObject(sd)
+        problems.extend(sd.c10_problems)
+    d.c10_problems = problems
     return d
+
+
+def all_docs(top):
+    """(document, folder prefix inside the package) for a document and everything embedded in it"""
+    out = []
+    def add(d):
+        out.append((d, u'' if d is top else d.folder[len(top.folder) + 1:] + u'/'))
+        for o in d.childobjects:
+            add(o)
+    add(top)
+    return out
 
 
 # ------------------------------------------------------------------ generators
@@ -148,12 +203,12 @@ def gen_structured(T):
                 val = ['X1 Common1', 'Common1\tX1', ' X1\n', 'Missing  X1 '][(i + (side == 'master')) % 4] if listy else 'X1'
                 r['common'].append(style_recipe('paragraph', 'Common1'))
                 if shape == 'direct':
-                    site = el(BODY_ELEMS[i % len(BODY_ELEMS)], [(a, val)], text='t')
+                    site = el(BODY_ELEMS[i % len(BODY_ELEMS)], [(a, val, side == 'master' or i % 2 == 0)], text='t')
                 else:
-                    mid = style_recipe('paragraph', 'Mid1', refs=[(a, val)]) if i % 2 == 0 else \
-                        style_recipe('paragraph', 'Mid1', kidrefs=[(a, val)])
+                    mid = style_recipe('paragraph', 'Mid1', refs=[(a, val, side == 'body')]) if i % 2 == 0 else \
+                        style_recipe('paragraph', 'Mid1', kidrefs=[(a, val, side == 'body')])
                     r['auto'].insert(0, mid)
-                    site = el((NS['text'], 'p'), [(text_sn, 'Mid1')], text='t')
+                    site = el((NS['text'], 'p'), [(text_sn, 'Mid1', i % 3 == 0)], text='t')
                 if side == 'body':
                     r['body'].append(site)
                 else:
@@ -196,7 +251,38 @@ def gen_shared(T):
                 yield r, {'gen': 'shared', 'kinds': kinds, 'side': side, 'shape': shape, 'dup': True}
 
 
-def gen_random(rng, T):
+def gen_embedded(T):
+    """fixed cases: a document with one or two embedded objects (also nested); every document has a master page whose
+    header uses automatic styles of its own and a body that uses others; the names are partly the same in parent and
+    object but the definitions differ, so a part written from the wrong document cannot pass"""
+    tsn = (NS['text'], 'style-name')
+    def one(tag, doctype, variant, objs):
+        r = empty_recipe(doctype)
+        r['common'].append(style_recipe('paragraph', 'Common1'))
+        r['auto'].append(style_recipe('paragraph', 'HdrP', refs=[((NS['style'], 'data-style-name'), tag + 'N', variant % 2 == 0)],
+                                      kidrefs=[((NS['fo'], 'color'), '#%06x' % (variant * 1234567 % 0xffffff))]))
+        r['auto'].append(style_recipe(['number', 'date', 'percentage'][variant % 3], tag + 'N'))
+        r['auto'].append(style_recipe('text', tag + 'T', kidrefs=[((NS['fo'], 'color'), '#0000%02x' % variant)]))
+        r['auto'].append(style_recipe('pagelayout', 'PL', kidrefs=[((NS['fo'], 'color'), '#%02x0000' % variant)]))
+        r['auto'].append(style_recipe('paragraph', 'BodyP', refs=[((NS['style'], 'list-style-name'), tag + 'L', True)]))
+        r['auto'].append(style_recipe('list', tag + 'L'))
+        r['auto'].append(style_recipe('text', 'Unused'))
+        hp = el((NS['text'], 'p'), [(tsn, 'HdrP', True)], [el((NS['text'], 'span'), [(tsn, tag + 'T', variant % 2 == 1)], text='s')], text=tag)
+        r['master'].append(el((NS['style'], 'master-page'), [(STYLE_NAME, 'Standard'), ((NS['style'], 'page-layout-name'), 'PL', True)],
+                              [el((NS['style'], 'header'), (), [hp])]))
+        r['body'].append(el((NS['text'], 'p'), [(tsn, 'BodyP', variant % 2 == 0)], text=tag + ' body'))
+        if objs:
+            r['objects'] = objs
+        return r
+    shapes = [('one object', lambda: one('T', 'text', 0, [one('S', 'spreadsheet', 1, [])])),
+              ('two objects', lambda: one('T', 'text', 2, [one('S', 'spreadsheet', 3, []), one('C', 'drawing', 4, [])])),
+              ('nested', lambda: one('T', 'presentation', 5, [one('S', 'text', 6, [one('N', 'spreadsheet', 7, [])])])),
+              ('nested and sibling', lambda: one('T', 'text', 8, [one('S', 'text', 9, [one('N', 'text', 10, [])]), one('C', 'text', 11, [])]))]
+    for name, mkr in shapes:
+        yield mkr(), {'gen': 'embedded', 'shape': name, 'objects': True}
+
+
+def gen_random(rng, T, depth=0):
     r = empty_recipe(rng.choice(['text', 'text', 'spreadsheet', 'presentation', 'drawing']))
     followed = list(T['followed']) + list(T['followedList'])
     unfollowed = [a for a in T['schema'] if a not in followed]
@@ -236,7 +322,8 @@ def gen_random(rng, T):
             if a in seen:
                 continue
             seen.add(a)
-            out.append((a, value(a, pool)))
+            v = value(a, pool)
+            out.append((a, v, v in autos + commons and rng.random() < 0.5))
         return out
 
     # a chain A0 <- A1 <- ... of length up to 6 through (mostly) followed attributes, plus random extra edges
@@ -249,11 +336,11 @@ def gen_random(rng, T):
             tgt = autos[i + 1]
             if a in T['listTyped'] and rng.random() < 0.6:
                 tgt = rng.choice([u'Missing ', u'']) + tgt + rng.choice([u'', u'\tC0', u'  Missing'])
-            (rf if rng.random() < 0.6 else kf).append((a, tgt))
+            (rf if rng.random() < 0.6 else kf).append((a, tgt, tgt == autos[i + 1] and rng.random() < 0.5))
         if rng.random() < 0.3:
-            for a, v in refs(autos, 1):
-                if a not in [x[0] for x in rf]:
-                    rf.append((a, v))
+            for x in refs(autos, 1):
+                if x[0] not in [y[0] for y in rf]:
+                    rf.append(x)
         if KINDS[kind][2] is None and kf:
             rf = rf + [x for x in kf if x[0] not in [y[0] for y in rf]]; kf = []
         r['auto'].append(style_recipe(kind, name, rf, kf))
@@ -296,11 +383,17 @@ def gen_random(rng, T):
                                 [tree(rng.randint(0, 2), roots + autos[chain_len:])]))
             mrefs = [(STYLE_NAME, 'Master%d' % m)]
             if rng.random() < 0.7:
-                mrefs.append(((NS['style'], 'page-layout-name'), rng.choice(autos)))
+                mrefs.append(((NS['style'], 'page-layout-name'), rng.choice(autos), rng.random() < 0.5))
             if rng.random() < 0.3:
-                mrefs.append(((NS['draw'], 'style-name'), rng.choice(autos)))
+                mrefs.append(((NS['draw'], 'style-name'), rng.choice(autos), rng.random() < 0.5))
             r['master'].append(el((NS['style'], 'master-page'), mrefs, parts))
-    return r, {'gen': 'random', 'chain': chain_len, 'where': where, 'nauto': nauto, 'dup': dup}
+    nobj = 0
+    if depth < 2 and rng.random() < (0.25 if depth == 0 else 0.3):
+        # embedded objects with style graphs of their own (the same names A0.. with other definitions)
+        for _ in range(rng.randint(1, 2)):
+            sub, _info = gen_random(rng, T, depth + 1)
+            r.setdefault('objects', []).append(sub); nobj += 1
+    return r, {'gen': 'random', 'chain': chain_len, 'where': where, 'nauto': nauto, 'dup': dup, 'objects': nobj}
 
 
 # ------------------------------------------------------------------ real tree -> wire / infoset
@@ -397,12 +490,63 @@ def attr_of(tree, q):
 
 
 # ------------------------------------------------------------------ oracle
-def oracle(doc, T):
-    """returns a list of (signature, detail) for one document; empty = property holds on it"""
-    schema = set(T['schema']); listy = set(T['listTyped'])
-    buf = io.BytesIO(); doc.save(buf); buf.seek(0)
+def mem_names(node, schema, listy):
+    """names an in-memory element and its subtree refer to (plain attribute dicts; the oracle's own reading)"""
+    out = []
+    if node.nodeType != 1:
+        return out
+    for k, v in node.attributes.items():
+        k = (k[0], k[1])
+        v = u'%s' % (v,)
+        if k in schema and v:
+            out.extend([x for x in XML_SPACE.split(v) if x] if k in listy else [v])
+    for c in node.childNodes:
+        out.extend(mem_names(c, schema, listy))
+    return out
+
+
+def mem_expected(doc, seeds, schema, listy):
+    """the automatic-style ELEMENTS of `doc` that are referenced from below the seed containers, directly or through
+    other automatic styles (least fixpoint, computed on the in-memory document)"""
+    reach = set()
+    for top in seeds:
+        for c in top.childNodes:
+            reach.update(mem_names(c, schema, listy))
+    autos = [e for e in doc.automaticstyles.childNodes if e.nodeType == 1]
+    taken = []
+    grown = True
+    while grown:
+        grown = False
+        for e in autos:
+            nm = e.attributes.get(STYLE_NAME)
+            if nm is not None and (u'%s' % (nm,)) in reach and not any(e is t for t in taken):
+                taken.append(e); reach.update(mem_names(e, schema, listy)); grown = True
+    return taken
+
+
+def oracle(top, T):
+    """the property on the saved package of `top`: every document of the package (the top one and every embedded
+    object) against the parts in ITS folder.  returns ([(signature, detail)], number of reference sites)"""
+    buf = io.BytesIO(); top.save(buf); buf.seek(0)
     z = zipfile.ZipFile(buf)
-    parts = {'content.xml': parse_infoset(z.read('content.xml')), 'styles.xml': parse_infoset(z.read('styles.xml'))}
+    fails = list(getattr(top, 'c10_problems', []))
+    sites = 0
+    oracle.stats = {}
+    names = set(z.namelist())
+    for doc, prefix in all_docs(top):
+        if prefix + 'content.xml' not in names or prefix + 'styles.xml' not in names:
+            fails.append(('part-missing', 'the package has no %scontent.xml / %sstyles.xml' % (prefix, prefix)))
+            continue
+        f, n = oracle_doc(doc, z, prefix, T)
+        fails.extend(f); sites += n
+        for k, v in oracle_doc.stats.items():
+            oracle.stats[k] = oracle.stats.get(k, 0) + v
+    return fails, sites
+
+
+def oracle_doc(doc, z, prefix, T):
+    schema = set(T['schema']); listy = set(T['listTyped'])
+    parts = {'content.xml': parse_infoset(z.read(prefix + 'content.xml')), 'styles.xml': parse_infoset(z.read(prefix + 'styles.xml'))}
     mem_auto = {}
     for e in doc.automaticstyles.childNodes:
         if e.nodeType == 1:
@@ -418,9 +562,30 @@ def oracle(doc, T):
     fails = []
     sites = 0
     stats = {'auto_ref_resolved': 0, 'auto_ref_dangling': 0, 'styles_written': 0, 'shared_name_definitions_checked': 0,
-             'unreferenced_written': 0}
+             'unreferenced_written': 0, 'expected_styles_checked': 0}
+    where = (' of ' + prefix) if prefix else ''
+    # each part belongs to ITS document: the sections that are written verbatim are that document's
+    for pname, q, node in (('content.xml', (NS['office'], 'body'), doc.body), ('styles.xml', (NS['office'], 'styles'), doc.styles),
+                           ('styles.xml', (NS['office'], 'master-styles'), doc.masterstyles)):
+        got = child(parts[pname], q)
+        if got is None and not node.childNodes:
+            continue
+        if got is None or got != mem_infoset(node):
+            fails.append(('part-of-wrong-document:' + pname, '%s%s: <office:%s> is not the one of the document stored in this folder'
+                          % (prefix, pname, q[1])))
     for pname in ('content.xml', 'styles.xml'):
         root = parts[pname]
+        # every automatic style of THIS document that its body / its master styles refer to (closure computed on the
+        # in-memory document) is in THIS folder's part, with its definition
+        auto0 = child(root, (NS['office'], 'automatic-styles'))
+        written0 = [x for x in (auto0[2] if auto0 is not None else ()) if isinstance(x, tuple)]
+        for e in mem_expected(doc, [doc.body] if pname == 'content.xml' else [doc.masterstyles], schema, listy):
+            stats['expected_styles_checked'] += 1
+            if mem_infoset(e) not in written0:
+                fails.append(('referenced-style-missing:' + pname,
+                              '%s%s lacks the automatic style <%s style:name=%r> which the %s of that document refers to'
+                              % (prefix, pname, e.qname[1], u'%s' % (e.attributes.get(STYLE_NAME),),
+                                 'body' if pname == 'content.xml' else 'master styles')))
         auto = child(root, (NS['office'], 'automatic-styles'))
         written = [s for s in (auto[2] if auto is not None else ()) if isinstance(s, tuple)]
         wnames = [attr_of(s, STYLE_NAME) for s in written]
@@ -499,7 +664,7 @@ def oracle(doc, T):
                                     sig = 'unfollowed:%s:%s' % T['names'][k]
                                 fails.append((sig, '%s: <%s %s="%s"> refers to automatic style %r of the document, '
                                               'which is not written to this part' % (pname, e[0][1], k[1], v, name)))
-    oracle.stats = stats
+    oracle_doc.stats = stats
     return fails, sites
 
 
@@ -555,8 +720,12 @@ def correspond(chk, doc, T, drv_lines, pending):
 
 def run_doc(chk, recipe, info, T, lines, pend, recipes):
     doc = realise(recipe)
-    correspond(chk, doc, T, lines, pend)
-    recipes.append(recipe)
+    for d, prefix in all_docs(doc):
+        correspond(chk, d, T, lines, pend)
+        recipes.append(recipe)
+        chk.count('documents_incl_embedded')
+    if len(doc.childobjects):
+        chk.count('packages_with_embedded_objects')
     fails, sites = oracle(doc, T)
     nontrivial = sites > 0 and len(recipe['auto']) > 0
     chk.case(json.dumps(recipe, sort_keys=True), nontrivial=nontrivial,
@@ -574,6 +743,8 @@ def run_doc(chk, recipe, info, T, lines, pend, recipes):
         chk.count('chain_len_%d' % info['chain'])
     if 'side' in info:
         chk.count('%s_%s_%s' % (info['gen'], info['side'], info['shape']))
+    nobjref = json.dumps(recipe).count(', true]')
+    chk.count('references_given_as_objects', nobjref)
     for s in recipe['auto']:
         chk.count('kind_' + s['kind'])
     seen = set()
@@ -591,6 +762,8 @@ def run(chk, replay=None):
                 'shared: 2..4 automatic styles of different kinds under one name, referenced from body / master page / both, directly and through a style; '
                 'random: style graphs with 1..9 automatic styles of 11 kinds (40% with a name shared across kinds), chains up to 6, references from body trees, '
                 'master pages (header/footer/shapes/notes), other automatic styles, common styles; '
+                'embedded: documents with 1-2 embedded objects (also nested) with style graphs of their own, every folder checked against its own document; '
+                'about half of the references are handed to the library as style OBJECTS (stored value checked); '
                 'non-trivial = at least one reference site and one automatic style')
     T = translate_styles.tables()
     if replay is not None:
@@ -619,6 +792,8 @@ def run(chk, replay=None):
     for recipe, info in gen_structured(T):
         run_doc(chk, recipe, info, T, lines, pend, recipes)
     for recipe, info in gen_shared(T):
+        run_doc(chk, recipe, info, T, lines, pend, recipes)
+    for recipe, info in gen_embedded(T):
         run_doc(chk, recipe, info, T, lines, pend, recipes)
     nrand = 5000 if chk.tier == 'thorough' else 600
     for _ in range(nrand):
